@@ -334,6 +334,7 @@ pub proof fn lemma_rne_bits_from_scaled(num: int, den: int, F: nat, bias: int, a
         m == rne_div(num * pw2(a), den * pw2(b)),
     ensures
         pw2(F) <= m <= pw2(F + 1),
+        in_binade(num, den, F, b - a),
         ulp_exp(num, den, F) == b - a,
         rne_bits(num, den, F, bias) == (b - a + F + bias - 1) * pw2(F) + m,
 {
